@@ -69,7 +69,7 @@ Section MerkleProofs.
     - destruct l' as [|a' [|b' r']]; try discriminate. simpl in HE, HL.
       injection HE as HE HR.
       destruct (h2_inj _ _ _ _ HE) as [[-> ->]|C]; auto.
-      destruct (IHl r') as [->|C]; auto.
+      destruct (IHl r' ltac:(lia) HR) as [->|C]; auto.
   Qed.
 
   (* duplicate-free lists (of any lengths) with equal next level are equal, or collision:
@@ -206,49 +206,147 @@ Section MerkleProofs.
       destruct (root_at_depth_lt _ _ _ _ _ HB HA ND' ND) as [C|L]; auto.
   Qed.
 
-  Theorem root_inj_same_length l l' : length l = length l' -> l <> [] ->
-    merkle_root l = merkle_root l' -> l = l' \/ collision.
+  Lemma root_fuel_some f : forall l0, l0 <> [] -> length l0 <= S f -> root_fuel f l0 <> None.
   Proof.
-    intros HL NE HR.
-    destruct (merkle_root l) as [r|] eqn:E.
-    - symmetry in HR. destruct (merkle_root_at _ _ E) as [k HA]. destruct (merkle_root_at _ _ HR) as [k' HB].
-      eapply root_at_inj_len; eauto.
-    - exfalso. clear HR HL. unfold C07_Merkle.merkle_root in E.
-      assert (G : forall f l0, l0 <> [] -> length l0 <= S f -> root_fuel f l0 <> None).
-      { clear. induction f; intros l0 NE HL.
-        - destruct l0 as [|a [|b t]]; simpl in *; try congruence; lia.
-        - destruct l0 as [|a [|b t]]; try congruence; [simpl; congruence|].
-          change (root_fuel f (level (a :: b :: t)) <> None). apply IHf.
-          + simpl; congruence.
-          + rewrite level_length. simpl in *.
-            assert (Nat.div2 (length t) <= length t) by (apply Nat.div2_decr; lia). lia. }
-      apply (G (length l) l NE); [lia|exact E].
+    induction f; intros l0 NE HL.
+    - destruct l0 as [|a [|b t]]; simpl in *; try congruence; lia.
+    - destruct l0 as [|a [|b t]]; try congruence; [simpl; congruence|].
+      change (root_fuel f (level (a :: b :: t)) <> None). apply IHf.
+      + simpl; congruence.
+      + rewrite level_length. simpl length in *.
+        change (Nat.div2 (S (S (S (length t))))) with (S (Nat.div2 (S (length t)))).
+        assert (Nat.div2 (S (length t)) <= f) by (apply Nat.div2_decr; lia). lia.
   Qed.
 
   (* the root of a non-empty list is defined *)
   Lemma merkle_root_some l : l <> [] -> exists r, merkle_root l = Some r.
   Proof.
     intros NE. destruct (merkle_root l) as [r|] eqn:E; [eauto|].
-    exfalso. destruct (root_inj_same_length l l eq_refl NE eq_refl) as [_|_].
-    - clear -E NE. unfold C07_Merkle.merkle_root in E.
-      assert (G : forall f l0, l0 <> [] -> length l0 <= S f -> root_fuel f l0 <> None).
-      { clear. induction f; intros l0 NE HL.
-        - destruct l0 as [|a [|b t]]; simpl in *; try congruence; lia.
-        - destruct l0 as [|a [|b t]]; try congruence; [simpl; congruence|].
-          change (root_fuel f (level (a :: b :: t)) <> None). apply IHf.
-          + simpl; congruence.
-          + rewrite level_length. simpl in *.
-            assert (Nat.div2 (length t) <= length t) by (apply Nat.div2_decr; lia). lia. }
-      apply (G (length l) l NE); [lia|exact E].
-    - clear -E NE. unfold C07_Merkle.merkle_root in E.
-      assert (G : forall f l0, l0 <> [] -> length l0 <= S f -> root_fuel f l0 <> None).
-      { clear. induction f; intros l0 NE HL.
-        - destruct l0 as [|a [|b t]]; simpl in *; try congruence; lia.
-        - destruct l0 as [|a [|b t]]; try congruence; [simpl; congruence|].
-          change (root_fuel f (level (a :: b :: t)) <> None). apply IHf.
-          + simpl; congruence.
-          + rewrite level_length. simpl in *.
-            assert (Nat.div2 (length t) <= length t) by (apply Nat.div2_decr; lia). lia. }
-      apply (G (length l) l NE); [lia|exact E].
+    exfalso. apply (root_fuel_some (length l) l NE); [lia|exact E].
+  Qed.
+
+  Theorem root_inj_same_length l l' : length l = length l' ->
+    merkle_root l = merkle_root l' -> l = l' \/ collision.
+  Proof.
+    intros HL HR.
+    destruct l as [|x t]; [destruct l'; [auto|discriminate]|].
+    destruct (merkle_root_some (x :: t)) as [r E]; [congruence|].
+    rewrite E in HR. symmetry in HR.
+    destruct (merkle_root_at _ _ E) as [k HA]. destruct (merkle_root_at _ _ HR) as [k' HB].
+    eapply root_at_inj_len; eauto.
+  Qed.
+  Lemma verdict_eq_dec (a b : verdict) : {a = b} + {a <> b}.
+  Proof. decide equality. Qed.
+
+  (* ---------- block level ---------- *)
+  Lemma hash_eqb_true a b : hash_eqb a b = true <-> a = b.
+  Proof. unfold C07_Merkle.hash_eqb. destruct (hash_eq_dec a b); split; congruence. Qed.
+
+  Lemma mem_In x l : mem x l = true <-> In x l.
+  Proof.
+    induction l as [|y r IH]; simpl; [split; [discriminate|tauto]|].
+    rewrite orb_true_iff, hash_eqb_true, IH. split; intros [?|?]; auto.
+  Qed.
+
+  Lemma has_dup_spec l : forall seen,
+    has_dup seen l = false <-> (NoDup l /\ forall x, In x l -> ~ In x seen).
+  Proof.
+    induction l as [|x r IH]; intros seen; simpl.
+    - split; [intros _; split; [constructor|tauto]|auto].
+    - rewrite orb_false_iff, IH. split.
+      + intros (HM & ND & HS). split.
+        * constructor; auto. intros HI. apply (HS x HI). left; auto.
+        * intros y [<-|HI].
+          -- intros HI. apply mem_In in HI. congruence.
+          -- intros HI'. apply (HS y HI). right; auto.
+      + intros (ND & HS). inversion ND as [|? ? HN ND']; subst. repeat split; auto.
+        * destruct (mem x seen) eqn:E; auto. apply mem_In in E. exfalso. apply (HS x); auto.
+        * intros y HI [<-|HI']; [contradiction|]. apply (HS y); auto.
+  Qed.
+
+  (* What acceptance means: the first sentence of the property. *)
+  Theorem accepted_iff r (l : list tx) :
+    accepted r l <->
+    exists t0 rest, l = t0 :: rest /\ tx_cb hash t0 = true /\
+      (forall t, In t rest -> tx_cb hash t = false) /\
+      NoDup (map (tx_id hash) l) /\ merkle_root (map (tx_id hash) l) = Some r.
+  Proof.
+    unfold C07_Merkle.accepted, C07_Merkle.check_block_sanity_core.
+    destruct l as [|t0 rest].
+    - split; [discriminate|intros (? & ? & ? & _); discriminate].
+    - destruct (tx_cb hash t0) eqn:Ecb; simpl negb; cbv iota.
+      2:{ split; [discriminate|]. intros (t & re & E & Hc & _). injection E as <- <-. congruence. }
+      destruct (existsb (tx_cb hash) rest) eqn:Eex.
+      { split; [discriminate|]. intros (t & re & E & _ & Hall & _). injection E as <- <-.
+        apply existsb_exists in Eex. destruct Eex as (x & Hx & Hc). rewrite (Hall x Hx) in Hc. discriminate. }
+      destruct (has_dup [] (map (tx_id hash) (t0 :: rest))) eqn:Edup.
+      { split; [discriminate|]. intros (t & re & E & _ & _ & ND & _). 
+        assert (has_dup [] (map (tx_id hash) (t0 :: rest)) = false) by (apply has_dup_spec; split; auto).
+        congruence. }
+      apply has_dup_spec in Edup. destruct Edup as [ND _].
+      assert (Hall : forall t, In t rest -> tx_cb hash t = false).
+      { intros t Ht. destruct (tx_cb hash t) eqn:E; auto.
+        assert (existsb (tx_cb hash) rest = true) by (apply existsb_exists; eauto). congruence. }
+      destruct (merkle_root (map (tx_id hash) (t0 :: rest))) as [r'|] eqn:ER.
+      + destruct (hash_eqb r r') eqn:EQ.
+        * apply hash_eqb_true in EQ. subst r'. split; [intros _|auto].
+          exists t0, rest. repeat split; auto.
+        * split; [discriminate|]. intros (_ & _ & _ & _ & _ & _ & HR). injection HR as ->.
+          assert (hash_eqb r r = true) by (apply hash_eqb_true; auto). congruence.
+      + split; [discriminate|]. intros (_ & _ & _ & _ & _ & _ & HR). discriminate.
+  Qed.
+
+  (* At most one transaction list is accepted under a given header root. *)
+  Theorem accepted_unique r (l l' : list tx) :
+    accepted r l -> accepted r l' -> l = l' \/ anomaly l l'.
+  Proof.
+    intros HA HB. apply accepted_iff in HA, HB.
+    destruct HA as (t0 & rest & -> & Hc & Hall & ND & HR).
+    destruct HB as (t0' & rest' & -> & Hc' & Hall' & ND' & HR').
+    destruct (root_inj_nodup _ _ _ ND ND' HR HR') as [E|[C|[L|L]]];
+      [|right; left; exact C|right; right; left; exact L|right; right; right; exact L].
+    left. simpl in E. injection E as E0 ER.
+    f_equal.
+    - destruct t0, t0'; unfold tx_cb, tx_id in *; simpl in *; congruence.
+    - clear -ER Hall Hall'. revert rest' ER Hall'. induction rest as [|a r IH]; intros [|a' r'] ER Hall'; try discriminate; auto.
+      simpl in ER. injection ER as Ea Er. f_equal.
+      + assert (tx_cb hash a = false) by (apply Hall; left; auto).
+        assert (tx_cb hash a' = false) by (apply Hall'; left; auto).
+        destruct a, a'; unfold tx_cb, tx_id in *; simpl in *; congruence.
+      + apply IH; auto; intros; [apply Hall|apply Hall']; right; auto.
+  Qed.
+
+  Lemma accepted_nodup r (l : list tx) : accepted r l -> NoDup l.
+  Proof.
+    intros HA. apply accepted_iff in HA. destruct HA as (_ & _ & _ & _ & _ & ND & _).
+    eapply NoDup_map_inv; eauto.
+  Qed.
+
+  (* Any single mutation of an accepted block is rejected, or an anomaly is exhibited. *)
+  Theorem mutation_rejected r (l l' : list tx) :
+    accepted r l -> single_mutation l l' -> ~ accepted r l' \/ anomaly l l'.
+  Proof.
+    intros HA HM.
+    destruct (verdict_eq_dec (check r l') Accept) as [HB|HB]; [|left; exact HB].
+    destruct (accepted_unique _ _ _ HA HB) as [E|A]; [|right; exact A].
+    exfalso. pose proof (accepted_nodup _ _ HA) as ND.
+    clear HA HB. destruct HM.
+    - apply app_inv_head in E. congruence.
+    - apply (f_equal (@length _)) in E. rewrite !app_length in E. simpl in E. lia.
+    - apply app_inv_head in E. injection E as E _. subst u.
+      apply NoDup_remove_2 in ND. apply ND. rewrite !in_app_iff. right. right. left. reflexivity.
+    - apply (f_equal (@length _)) in E. rewrite !app_length in E. simpl in E. lia.
+    - apply (f_equal (@length _)) in E. rewrite !app_length in E. simpl in E. lia.
+  Qed.
+
+  (* The CVE-2012-2459 shape on its own: appending a copy of the tail that
+     leaves the merkle root unchanged is rejected by the duplicate check. *)
+  Theorem duplicated_tail_rejected r (l : list tx) t :
+    In t l -> check r (l ++ [t]) <> Accept.
+  Proof.
+    intros HI HA. apply accepted_nodup in HA.
+    apply in_split in HI. destruct HI as (l1 & l2 & ->).
+    rewrite <- app_assoc in HA. simpl in HA. apply NoDup_remove_2 in HA.
+    apply HA. rewrite !in_app_iff. right. right. left. auto.
   Qed.
 End MerkleProofs.
